@@ -58,6 +58,19 @@ fn walk(p: &Path, rel: &str, out: &mut Vec<(String, Vec<u8>)>) {
 	}
 }
 
+fn copy_dir(from: &Path, to: &Path) {
+	std::fs::create_dir_all(to).unwrap();
+	for e in std::fs::read_dir(from).unwrap() {
+		let e = e.unwrap();
+		let (p, t) = (e.path(), to.join(e.file_name()));
+		if p.is_dir() {
+			copy_dir(&p, &t);
+		} else {
+			std::fs::copy(&p, &t).unwrap();
+		}
+	}
+}
+
 /// digest of everything the wallet keeps on disk (LMDB reader-lock table excluded)
 fn files_digest(dir: &str) -> String {
 	let mut files = vec![];
@@ -216,7 +229,14 @@ fn reactivate(s: &mut Side) {
 fn restore(s: &mut Side) {
 	if let Some((snap, roles)) = s.snap.as_ref() {
 		let old = s.w.mask("w1");
-		s.w.restore(snap);
+		// only w1 can have changed (case-mode calls never touch the other wallets): put back its
+		// directory and the registries, reopen it (what World::restore does, for one wallet)
+		let dir = s.w.wallets["w1"].dir.clone();
+		s.w.wallets.get_mut("w1").unwrap().inst = None;
+		let _ = std::fs::remove_dir_all(&dir);
+		copy_dir(&Path::new(&snap.dir).join("w1"), Path::new(&dir));
+		s.w.set_regs(&snap.regs);
+		let _ = s.w.reopen("w1");
 		if old.is_some() {
 			s.stale = old;
 		}
